@@ -584,11 +584,11 @@ protected:
         (sol::SOLVED_LAST>=SolveCode() &&
          sol::SOLVED<=SolveCode())
         ||
-        (sol::LIMIT_FEAS>=SolveCode() &&
-         sol::LIMIT_FEAS_LAST<=SolveCode())
+        (sol::LIMIT_FEAS<=SolveCode() &&
+         sol::LIMIT_FEAS_LAST>=SolveCode())
         ||
-        (sol::UNBOUNDED_FEAS>=SolveCode() &&
-         sol::UNBOUNDED_NO_FEAS_LAST<=SolveCode());
+        (sol::UNBOUNDED_FEAS<=SolveCode() &&
+         sol::UNBOUNDED_FEAS_LAST>=SolveCode());
   }
   /// Undecidedly infeas or unbnd
   virtual bool IsProblemIndiffInfOrUnb() const {
